@@ -424,6 +424,12 @@ pub fn post_form(a: &[String]) -> Value {
     let mut body: Vec<u8> = Vec::new();
     let fields: Vec<(&str, String)> = vec![("key", key.to_owned()), ("x-amz-algorithm", "AWS4-HMAC-SHA256".into()), ("x-amz-credential", cred.clone()),
         ("x-amz-date", stamp.clone()), ("x-amz-meta-tag", tag.into()), ("policy", policy.clone()), ("x-amz-signature", sig.clone())];
+    let mut fields = fields;
+    if variant == "nested-meta" {
+        // user-metadata keys that themselves begin with the prefix, next to an ordinary one of the same tail
+        fields.insert(4, ("x-amz-meta-x-amz-meta-origin", "mirror".to_owned()));
+        fields.insert(4, ("x-amz-meta-origin", "direct".to_owned()));
+    }
     for (n, v) in &fields {
         body.extend_from_slice(format!("--{boundary}\r\nContent-Disposition: form-data; name=\"{n}\"\r\n\r\n{v}\r\n").as_bytes());
     }
@@ -462,12 +468,13 @@ pub fn post_form(a: &[String]) -> Value {
         ("content-type".into(), format!("multipart/form-data; boundary={boundary}")), ("content-length".into(), body.len().to_string())], body, 1024);
     let reached = calls.iter().any(|c| c.starts_with("put_object@"));
     let body_line = calls.iter().find(|c| c.starts_with("put_object.body")).cloned().unwrap_or_default();
-    let must_accept = variant == "valid" || variant == "binary-file" || variant == "field-whitespace";
+    let must_accept = variant == "valid" || variant == "binary-file" || variant == "field-whitespace" || variant == "nested-meta";
     let attributed = calls.iter().any(|c| c == &format!("put_object@{AK}"));
     let mut fnv: u64 = 0xcbf29ce484222325;
     for y in &file { fnv = (fnv ^ u64::from(*y)).wrapping_mul(0x100000001b3); }
     let input = crate::service::last_input();
-    let mapped = input.contains(&format!("key: {key:?},")) && input.contains("bucket: \"bkt\"") && input.contains(&format!("\"tag\": {tag:?}}}"));
+    let mapped = input.contains(&format!("key: {key:?},")) && input.contains("bucket: \"bkt\"") && input.contains(&format!("\"tag\": {tag:?}"))
+        && (variant != "nested-meta" || (input.contains("\"origin\": \"direct\"") && input.contains("\"x-amz-meta-origin\": \"mirror\"")));
     let ok = if must_accept { reached && attributed && mapped && body_line.contains(&format!("bytes={} ", file.len())) && body_line.contains("end=clean") && body_line.contains(&format!("fnv={fnv:016x}")) } else { !reached };
     json!({"violates": !ok, "input": {"variant": variant, "policy": policy_json, "key": key, "file_bytes": file.len()},
            "expected": if must_accept { "accepted: put_object for the named access key with exactly the file's bytes" } else { "refused before the backend runs" },
